@@ -337,3 +337,55 @@ LEMMAS['S1'] = dict(jobs=jobs_S1, run=run_S1, footprint_jobs=lambda ctx: [dict(s
     bound='every slot size; every subset of ready registers (forks), symbolic latencies/last-op info/generator outputs; rejection loops unrolled 3 times (longer runs of rejected values cut: termination of those loops is probabilistic)',
     symbolic='generator bytes/words, register latencies and last-operation info, cycle, fetch type', stubs=['Blake2Generator::getByte/getUInt32 := arbitrary values', 'operator new := ghost heap (no failure)'],
     outside='termination of the two rejection-sampling loops; the port-scheduling simulation (which instruction sequence a key yields)')
+
+# ----------------------------------------------------------------------------------------------- S5 BlakeGenerator (spec 3.5)
+UNITS['b2gen'] = dict(src='src/blake2_generator.cpp', inline=False)
+def run_S5(ctx, case):
+    q = Q(30); mod = Module(ctx['ll']['b2gen']); n = case['keylen']
+    tg = resolve(NamedT('class.randomx::Blake2Generator', mod)); og = tg.layout()[0]      # { data[64], dataIndex }
+    H = [z3.Function('Hash512_byte%d' % k, *([z3.BitVecSort(8)] * 65)) for k in range(0)]  # (unused: hash modelled by fresh bytes per call)
+    it = Interp(mod); calls = []
+    def blake(s, a):
+        out, outlen, inp, inlen, key, keylen = a
+        ok = out.obj == 'gen' and out.off == og[0] and outlen == 64 and inp.obj == 'gen' and inp.off == og[0] and inlen == 64 and keylen == 0
+        cur = [s.mem.load(Ptr('gen', og[0] + k), 1) for k in range(64)]; k_ = len(calls); calls.append((ok, cur))
+        for j in range(64): s.mem.store(Ptr('gen', og[0] + j), z3.BitVec('S%d_%d' % (k_ + 1, j), 8), 1)
+        return 0
+    it.hooks['randomx_blake2b'] = blake
+    gen = it.mem.alloc(tg.size(), 'gen')
+    for k in range(0, tg.size()): it.mem.store(Ptr('gen', k), z3.BitVec('gen_stale%d' % k, 8), 1)
+    key = it.mem.alloc(max(n, 1), 'key'); K = [z3.BitVec('key%d' % k, 8) for k in range(n)]
+    for k in range(n): it.mem.store(Ptr('key', k), K[k], 1)
+    nonce = z3.BitVec('nonce', 32)
+    it.call(_fn(mod, 'Blake2GeneratorC2EPKvmi'), [gen, key, n, nonce]); tag = 'BlakeGenerator(key of %d bytes)' % n
+    def chk(c, what):
+        q.n += 1; q.unsat += bool(c); q.sat += (not c)
+        if not c: q.failed.append(('%s: %s' % (tag, what), {}))
+    chk(not calls, 'no hashing in the constructor (the state is hashed on first use)')
+    # draw 70 bytes and 3 words: reseed exactly when fewer bytes remain than requested
+    outs = []
+    seq = ['b'] * 3 + ['w'] * 15 + ['b'] * 2 + ['w'] + ['b'] * 70 + ['w'] * 2
+    pos = 64; gen_no = 0; exp = []
+    for kind in seq:
+        need = 1 if kind == 'b' else 4
+        if pos + need > 64: gen_no += 1; pos = 0
+        exp.append((gen_no, pos, need)); pos += need
+        v = it.call(_fn(mod, 'Blake2Generator7getByteEv' if kind == 'b' else 'Blake2Generator9getUInt32Ev'), [gen]); outs.append(v)
+    chk(len(calls) == gen_no, 'state re-hashed %d times for this draw sequence, spec 3.5.2 says %d (only when fewer unused bytes remain than requested)' % (len(calls), gen_no))
+    chk(all(c[0] for c in calls), 'S = Hash512(S): 64 bytes in, 64 bytes out, unkeyed, in place')
+    if calls:
+        first = calls[0][1]     # the initial state that is hashed first: key (at most 60 bytes) zero padded + nonce in the last 4 bytes
+        for k in range(64):
+            if k < min(n, 60): e = K[k]
+            elif k < 60: e = 0
+            else: e = z3.Extract(8 * (k - 60) + 7, 8 * (k - 60), nonce)
+            q.prove_eq([], first[k], e, '%s: initial state byte %d (key[0..60) zero padded, 4-byte nonce)' % (tag, k), 8)
+    for (g, p_, need), v in zip(exp, outs):
+        e = z3.Concat(*[z3.BitVec('S%d_%d' % (g, p_ + j), 8) for j in reversed(range(need))]) if need > 1 else z3.BitVec('S%d_%d' % (g, p_), 8)
+        q.prove_eq([], v, e, '%s: output = next %d unused state byte(s), little endian (state #%d offset %d)' % (tag, need, g, p_), 8 * need)
+    return result('S5', 'keylen %d' % n, q, paths=1, steps=it.steps)
+
+LEMMAS['S5'] = dict(jobs=lambda ctx: [dict(keylen=n) for n in ((0, 1, 59, 60, 61, 64, 80) if ctx['tier'] == 'quick' else list(range(0, 70)) + [80, 100, 200])], run=run_S5, units=['b2gen'],
+    functions=['Blake2Generator::Blake2Generator', 'getByte', 'getUInt32', 'checkData'],
+    doc='BlakeGenerator == spec 3.5: state = first 60 key bytes zero padded (+ nonce in the last four bytes), hashed in place with Hash512 exactly when fewer unused bytes remain than requested, outputs are the next unused bytes (32-bit words little endian); key bytes beyond 60 have no influence',
+    bound='key lengths 0,1,59,60,61,64,80 (quick) / 0..69,80,100,200; a 94-draw sequence crossing three re-hashes', symbolic='key bytes, nonce, hash outputs', stubs=['blake2b := fresh symbolic 64-byte state per call'])
